@@ -269,6 +269,14 @@ def r17_4(run):
     okp = any(dotted(v) == ai.params[1] for st, v in writes_of(ai, 'self.onion_port'))
     oku = any(src(v) == ai.params[2] + '.hostname' for st, v in writes_of(ai, 'self.onion_uri'))
     run.ob('R17.4', ai, ai.node, 'the address carries the public port and the hostname Tor assigned', okp and oku, slot='address-fields', message='TorOnionAddress fields changed')
+    ga = cfg_of(ai)
+    ws = [n for n in ga.real_nodes() if n.kind == 'stmt' and assign_to(n.ast, 'self.onion_uri') is not None]
+    r = ga.reachable([ga.entry], avoid=lambda n: n in ws, follow_exc=False)
+    run.ob('R17.4', ai, ai.node, 'every address object has its onion_uri set', bool(ws) and not any(e in r for e in ga.normal_exits()), slot='address-uri-always',
+           message='TorOnionAddress.__init__ can finish without setting onion_uri (port.getHost().onion_uri then raises AttributeError)')
+    oka = any(isinstance(v, ast.Call) and dotted(v.func) == '_maybe_unique_host' and [dotted(a) for a in v.args] == [ai.params[2]] for st, v in writes_of(ai, 'self.onion_uri'))
+    run.ob('R17.4', ai, ai.node, 'for an authenticated service the address reports its (unique) client hostname', oka, slot='address-uri-auth',
+           message='TorOnionAddress no longer derives onion_uri from _maybe_unique_host(service) for authenticated services')
 
 
 def r17_5(run):
@@ -417,6 +425,7 @@ RULES = [
 from ..selftest import M  # noqa: E402
 F = 'txtorcon/endpoints.py'
 MUTANTS = [
+    M('auth-address-no-uri', F, "            try:\n                self.onion_uri = _maybe_unique_host(hs)\n            except ValueError:", "            try:\n                _maybe_unique_host(hs)\n            except ValueError:", ['R17.4']),
     M('config-bootstrap-removed', F, "        yield self._config.post_bootstrap\n", "", ['R17.6']),
     M('handler-swallows', F, "                yield defer.maybeDeferred(port.stopListening)\n                raise\n", "                yield defer.maybeDeferred(port.stopListening)\n", ['R17.6', 'R17.3']),
     M('config-attrs-parses-hostname', 'txtorcon/onion.py', "        if self._clients:\n            rtn.append((\n                'HiddenServiceAuthorizeClient',", "        if self.client_names():\n            rtn.append((\n                'HiddenServiceAuthorizeClient',", ['R17.8']),
